@@ -14,7 +14,7 @@ def run(ctx, prop):
         args += ["--vectors", vec]
         ctx.cov["vectors_exported"] = len(r.vec)
         ctx.cov["vectors_replayed"] = len(keep)
-        mine = ("illegal-match", "match-len")
+        mine = ("illegal-match", "match-len", "rule-pattern-object-differs-from-the-pattern")
     else:
         r = vlib.model_check(ctx, "mc/MC_C02.tla", "mc/MC_C02_thorough.cfg" if th else "mc/MC_C02_quick.cfg",
                              workers=12, timeout=3000, heap="10g")
